@@ -907,3 +907,73 @@ def definedness(roots):
                     d = and_(d, le(ONE, t.args[1]))
         memo[t.id] = d
     return conj(memo[r.id] for r in roots)
+
+
+# ---------------------------------------------------------------- symbolic differentiation (jets, DESIGN 2.3)
+
+UF_PARTIALS = {}  # uninterpreted function name -> list of partial-derivative function names (one per argument)
+
+
+def declare_partials(name, partial_names):
+    UF_PARTIALS[name] = list(partial_names)
+
+
+def diff(roots, dtable):
+    """total derivative of terms w.r.t. one direction.  dtable: {atom term: derivative term}; atoms not listed are constant.
+    Uninterpreted functions listed in UF_PARTIALS follow the chain rule through their declared partials."""
+    memo = {}
+    dt = {k.id: v for k, v in dtable.items()}
+    for t in postorder(roots):
+        op = t.op
+        if t.id in dt:
+            d = dt[t.id]
+        elif op in ("c", "pi", "v", "true", "false"):
+            d = ZERO
+        elif op == "+":
+            d = add(memo[t.args[0].id], memo[t.args[1].id])
+        elif op == "neg":
+            d = neg(memo[t.args[0].id])
+        elif op == "*":
+            a, b = t.args
+            d = add(mul(memo[a.id], b), mul(a, memo[b.id]))
+        elif op == "/":
+            a, b = t.args
+            d = div(add(mul(memo[a.id], b), neg(mul(a, memo[b.id]))), mul(b, b))
+        elif op == "sqrt":
+            a = t.args[0]
+            d = div(memo[a.id], mul(const(2), t))
+        elif op == "ite":
+            c, a, b = t.args
+            d = ite(c, memo[a.id], memo[b.id])
+        elif op == "f":
+            name = t.args[0]
+            args = t.args[1:]
+            if name in UF_PARTIALS:
+                d = ZERO
+                for i, a in enumerate(args):
+                    da = memo[a.id]
+                    if da is ZERO:
+                        continue
+                    d = add(d, mul(fn(UF_PARTIALS[name][i], *args), da))
+            elif name == "log":
+                d = div(memo[args[0].id], args[0])
+            elif name == "exp":
+                d = mul(t, memo[args[0].id])
+            elif name == "sin":
+                d = mul(fn("cos", args[0]), memo[args[0].id])
+            elif name == "cos":
+                d = neg(mul(fn("sin", args[0]), memo[args[0].id]))
+            elif name == "pow":
+                x, y = args
+                # d x^y = y x^(y-1) dx + ln(x) x^y dy
+                d = add(mul(mul(y, fn("pow", x, add(y, const(-1)))), memo[x.id]), mul(mul(fn("log", x), t), memo[y.id]))
+            elif all(memo[a.id] is ZERO for a in args):
+                d = ZERO
+            else:
+                raise NotImplementedError("derivative of %s" % name)
+        elif t.sort == "B":
+            d = ZERO
+        else:
+            raise NotImplementedError("derivative of op %s" % op)
+        memo[t.id] = d
+    return [memo[r.id] for r in roots]
